@@ -8,6 +8,18 @@ NONTRIVIAL_STEPS = 2
 ALPHA = [0, "", (), 1, "a", (1,), 2]
 
 
+def fresh(x):
+    """An object equal to x but, where the language allows it, not identical to it (a map must work by equality)."""
+    if isinstance(x, tuple) and x:
+        return tuple(list(x))
+    if isinstance(x, str) and x:
+        return "".join(list(x))
+    return x
+
+
+BIG = [10 ** 30, "key-" * 8, (1, (2, 3))]
+
+
 class Model:
     def __init__(self):
         self.fwd = {}
@@ -42,7 +54,7 @@ def _r(x):
     return repr(x)
 
 
-def compare(ctx, bm, m, op):
+def compare(ctx, bm, m, op, alpha=None):
     """Full observation of the real map through its public API vs the model."""
     ctx.checked("state")
     problems = []
@@ -55,7 +67,7 @@ def compare(ctx, bm, m, op):
         it = list(iter(bm))
         if sorted(map(_r, it)) != sorted(map(_r, m.fwd)):
             problems.append(("iter", _r(it), _r(list(m.fwd))))
-        for a in ALPHA:
+        for a in (alpha or ALPHA + BIG):
             er = m.fwd.get(a)
             el = m.bck.get(a)
             if bm.get_right(a) != er or type(bm.get_right(a)) is not type(er):
@@ -85,6 +97,12 @@ def run(ctx):
 
     ch = ctx.ch
     m = Model()
+    big = ch.coin(1, 3, "p-big-keys")
+    alpha = ALPHA + BIG if big else ALPHA
+    if big:
+        ctx.probe("equal_but_not_identical_keys")
+    if ch.coin(1, 5, "two-maps-one-dict"):
+        return run_two_maps(ctx)
     # construction
     kind = ch.draw(4, "init")
     if kind == 0:
@@ -117,7 +135,11 @@ def run(ctx):
     nsteps = 1 + ch.draw(40, "nsteps")
     for _ in range(nsteps):
         op = ch.weighted([4, 4, 3, 2, 2, 2], "op")
-        a, b = ch.pick(ALPHA, "a"), ch.pick(ALPHA, "b")
+        a, b = ch.pick(alpha, "a"), ch.pick(alpha, "b")
+        if big:
+            # rebuild the arguments at run time: equal to earlier ones, not the same objects
+            a = int(str(a)) if isinstance(a, int) and a > 10 ** 20 else (tuple(list(a)) if isinstance(a, tuple) and a else ("".join(list(a)) if isinstance(a, str) and a else a))
+            b = int(str(b)) if isinstance(b, int) and b > 10 ** 20 else (tuple(list(b)) if isinstance(b, tuple) and b else ("".join(list(b)) if isinstance(b, str) and b else b))
         name = ["insert_left", "insert_right", "setitem", "delete_left", "delete_right", "delitem"][op]
         exc = None
         before_shared_key = a in m.fwd
@@ -167,3 +189,58 @@ def run(ctx):
             ctx.probe("absent_delete")
         compare(ctx, bm, m, name)
     ctx.profile = {"init": kind}
+
+
+def run_two_maps(ctx):
+    """Two maps built from one mapping object (and the caller keeps using that object): two actors, one per map,
+    interleaved by the scheduler; each map must follow its own model only."""
+    from hugr.utils import BiMap
+
+    ch = ctx.ch
+    seed = {}
+    for _ in range(1 + ch.draw(4, "seed-n")):
+        k, v = ch.pick(ALPHA, "k"), ch.pick(ALPHA, "v")
+        if v not in seed.values() and k not in seed:
+            seed[k] = v
+    ctx.profile = {"two_maps": True}
+    ctx.probe("two_maps_from_one_dict")
+    maps = [BiMap(seed), BiMap(seed)]
+    models = [Model(), Model()]
+    for m in models:
+        for k, v in seed.items():
+            m.insert(k, v)
+    ctx.ev(0, "BiMap(seed) x2", _r(seed))
+    snapshot = dict(seed)
+    for _ in range(2 + ch.draw(20, "nsteps")):
+        i = ch.draw(3, "sched")
+        ctx.steps += 1
+        if i == 2:
+            # the caller edits its own dict: neither map may notice
+            k, v = ch.pick(ALPHA, "a"), ch.pick(ALPHA, "b")
+            seed[k] = v
+            snapshot[k] = v
+            ctx.ev("caller", "seed[k]=v", [_r(k), _r(v)])
+        else:
+            bm, m = maps[i], models[i]
+            op = ch.draw(3, "op")
+            a, b = ch.pick(ALPHA, "a"), ch.pick(ALPHA, "b")
+            try:
+                if op == 0:
+                    bm.insert_left(a, b)
+                    m.insert(a, b)
+                elif op == 1:
+                    if a in m.fwd:
+                        bm.delete_left(a)
+                        m.del_left(a)
+                else:
+                    if a in m.bck:
+                        bm.delete_right(a)
+                        m.del_right(a)
+            except Exception as e:  # noqa: BLE001
+                ctx.violate("exception", f"two-maps:{type(e).__name__}", {"map": i, "op": op, "arg": _r(a)}, stop=True)
+            ctx.ev(i, ["insert_left", "delete_left", "delete_right"][op], [_r(a), _r(b)])
+        for j in (0, 1):
+            compare(ctx, maps[j], models[j], f"two-maps-step-on-{'caller' if i == 2 else i}")
+        ctx.checked("aliasing")
+        if seed != snapshot:
+            ctx.violate("aliasing", "map-operation-changed-the-callers-dict", {"seed": _r(seed), "expected": _r(snapshot)}, stop=True)
